@@ -488,49 +488,66 @@ func (c *Ctx) lessAdapters() []*lessAdapter {
 				if n := calleeName(call); n != "sort.Slice" && n != "sort.SliceStable" {
 					continue
 				}
-				mc, ok := call.Call.Args[1].(*ssa.MakeClosure)
-				if !ok {
-					continue
-				}
-				cf, ok := mc.Fn.(*ssa.Function)
-				if !ok || len(cf.Params) != 2 {
-					continue
-				}
-				ad := &lessAdapter{less: cf, latch: -1, closure: true}
-				hasNode := false
-				for i, fv := range cf.FreeVars {
-					pt, ok := fv.Type().(*types.Pointer)
-					if !ok {
-						ad.opaque = true
+				for _, mc := range closuresOf(call.Call.Args[1], 0) {
+					cf, ok := mc.Fn.(*ssa.Function)
+					if !ok || len(cf.Params) != 2 {
 						continue
 					}
-					ft := pt.Elem()
-					switch {
-					case c.isASTNode(ft):
-						hasNode = true
-					case isBoolType(ft) || isErrorType(ft):
-						// the failure flag is the one the literal writes
-						for _, cb := range cf.Blocks {
-							for _, cin := range cb.Instrs {
-								if st, ok := cin.(*ssa.Store); ok && st.Addr == fv {
-									ad.latch = i
-									ad.latchErr = isErrorType(ft)
+					ad := &lessAdapter{less: cf, latch: -1, closure: true}
+					hasNode := false
+					for i, fv := range cf.FreeVars {
+						pt, ok := fv.Type().(*types.Pointer)
+						if !ok {
+							ad.opaque = true
+							continue
+						}
+						ft := pt.Elem()
+						switch {
+						case c.isASTNode(ft):
+							hasNode = true
+						case isBoolType(ft) || isErrorType(ft):
+							// the failure flag is the one the literal writes
+							for _, cb := range cf.Blocks {
+								for _, cin := range cb.Instrs {
+									if st, ok := cin.(*ssa.Store); ok && st.Addr == fv {
+										ad.latch = i
+										ad.latchErr = isErrorType(ft)
+									}
 								}
 							}
-						}
-					default:
-						if _, isSig := ft.Underlying().(*types.Signature); isSig {
-							ad.opaque = true
+						default:
+							if _, isSig := ft.Underlying().(*types.Signature); isSig {
+								ad.opaque = true
+							}
 						}
 					}
-				}
-				if hasNode {
-					out = append(out, ad)
+					if hasNode {
+						out = append(out, ad)
+					}
 				}
 			}
 		}
 	}
 	return out
+}
+
+// closuresOf: the function literals a value can be: a literal, or a variable
+// assigned one of several (a phi of literals).
+func closuresOf(v ssa.Value, depth int) []*ssa.MakeClosure {
+	switch v := v.(type) {
+	case *ssa.MakeClosure:
+		return []*ssa.MakeClosure{v}
+	case *ssa.Phi:
+		if depth > 3 {
+			return nil
+		}
+		var out []*ssa.MakeClosure
+		for _, e := range v.Edges {
+			out = append(out, closuresOf(e, depth+1)...)
+		}
+		return out
+	}
+	return nil
 }
 
 // callArgs: the arguments of one call Less(i, j) on the adapter built as id.
